@@ -174,8 +174,8 @@ EXPORT char *_stpncpy_s_chk(char *restrict dest, rsize_t dmax,
     if (srcbos == BOS_UNKNOWN) {
         BND_CHK_PTR_BOUNDS(src, slen);
     } else if (unlikely(slen > srcbos)) {
-        *errp = handle_str_bos_overflow("stpncpy_s: slen exceeds src", dest,
-                                       destbos);
+        handle_error(dest, dmax, "stpncpy_s: slen exceeds src", EOVERFLOW);
+        *errp = RCNEGATE(EOVERFLOW);
         return NULL;
     }
 
